@@ -89,6 +89,14 @@ CHECKS = {
             'identical stdout/exit/extracted files on both.',
             'SKIPBITS/RAND opcodes are not generated (specification unavailable offline); encoders lib/flux.py.',
             'bounded-exhaustive differential exploration (flux image vs sector dump of the same disc)'),
+    'C04': ('exploration', '4 C04',
+            'Image files whose every sector carries its own file offset: container (ssd/sdd one- and two-sided, dsd/ddd, mmb) x '
+            'geometry x catalogue variant x every surface, every sector read back through a whole-surface file read and '
+            'dump-sector (boundary tracks quick / every sector thorough), file cut at track boundaries, dump-sector argument '
+            'boundaries, every MMB slot (sparse 104 MB archive) and all 256 status bytes on three slots.',
+            'Non-interleaved 16-sector images are undecidable from their bytes (also valid 18-sector images) and only their '
+            'geometry-independent LBA mapping is checked.',
+            'bounded-exhaustive enumeration of (container, geometry, surface, track, sector) with self-describing sectors'),
 }
 
 NA_REASON = 'check not built yet (work in progress; see DESIGN.md section 4)'
